@@ -721,9 +721,13 @@ class SymInt:
         return f"SymInt<{self.lo}..{self.hi}>"
 
     def __format__(self, spec):
+        if self.hi - self.lo + 1 > CONCRETIZE_LIMIT and not z3.is_bv_value(z3.simplify(self.e)):
+            return TaintedStr("\u27e6symbolic int\u27e7")
         return format(self.concretize(), spec)
 
     def __str__(self):
+        if self.hi - self.lo + 1 > CONCRETIZE_LIMIT and not z3.is_bv_value(z3.simplify(self.e)):
+            return TaintedStr("\u27e6symbolic int\u27e7")
         return str(self.concretize())
 
     def __round__(self, n=None):
@@ -777,6 +781,32 @@ def _mk(e, lo, hi):
         v = e2.as_signed_long()
         return SymInt(e2, v, v)
     return SymInt(e, lo, hi)
+
+
+class TaintedStr(str):
+    """Text rendered from a wide symbolic value (only meaningful inside diagnostics). Any semantic use traps."""
+
+    def _trap(self, *a, **k):
+        raise Unsupported("text rendered from a wide symbolic value was inspected")
+
+    __eq__ = __ne__ = __lt__ = __le__ = __gt__ = __ge__ = _trap
+    __contains__ = __getitem__ = __iter__ = _trap
+    encode = startswith = endswith = split = strip = find = index = isdigit = isalpha = _trap
+
+    def __hash__(self):
+        raise Unsupported("hash of text rendered from a wide symbolic value")
+
+    def __add__(self, o):
+        return TaintedStr(str.__add__(self, o))
+
+    def __radd__(self, o):
+        return TaintedStr(str.__add__(o, self))
+
+    def __format__(self, spec):
+        return TaintedStr(str.__str__(self))
+
+    def __str__(self):
+        return self
 
 
 def is_sym(x):
